@@ -144,3 +144,11 @@ BUILT['C17'] = (
     "vector / object operands, augmented operators), and random 150-call histories over a pool of arrays, library views and "
     "objects incl. default-constructed ones and the documented list mutators (which may change their receiver only)",
     NOTE, "DESIGN.md 4 C17")
+BUILT['C18'] = (
+    "boundary monitor on the twist constructors and accessors against a longdouble reference screw motion",
+    "Twist3.Revolute(a, q) with axis lengths 1e-3..1e6 and axis points up to 1e3: exp(theta S) must fix three points of the "
+    "axis, equal Rodrigues(a^, theta) and move an off-axis point as the reference screw does, for theta in [-2pi, 2pi] incl. 0 "
+    "and multiples of pi/2, scalar and vector theta, rad and deg; pitch 0, pole and line on the axis, theta() = 1, isprismatic; "
+    "Prismatic translates by theta a^ without rotating; se(n) form, inverse and scalar multiples consistent with exp; same for "
+    "planar twists about a point",
+    NOTE, "DESIGN.md 4 C18")
